@@ -79,6 +79,14 @@ pub fn gen_c16_case(g: &mut G) -> Value {
             doc = d2;
         }
     }
+    // a union whose alternatives all convert from strings, one of them a string enumeration
+    // that sorts after (or before) the union
+    if g.chance(1, 3) {
+        doc["definitions"]["ModeUnion"] = json!({"oneOf": [{"$ref": "#/definitions/ZzPreset"}, {"type": "integer"}]});
+        doc["definitions"]["ZzPreset"] = json!({"type": "string", "enum": ["fast", "slow"]});
+        doc["definitions"]["ZzUnionAfter"] = json!({"oneOf": [{"$ref": "#/definitions/AaPreset"}, {"type": "integer"}]});
+        doc["definitions"]["AaPreset"] = json!({"type": "string", "enum": ["hot", "cold"]});
+    }
     let mut comps = components(&doc);
     g.shuffle(&mut comps);
     // group the components into 1..k calls
@@ -171,6 +179,11 @@ fn item_map(space: &TypeSpace) -> Result<BTreeMap<String, String>, Violation> {
         let (name, text) = match item {
             syn::Item::Struct(s) => (s.ident.to_string(), s.to_token_stream().to_string()),
             syn::Item::Enum(s) => (s.ident.to_string(), s.to_token_stream().to_string()),
+            // trait implementations are part of what is defined for a type
+            syn::Item::Impl(i) => {
+                let tr = i.trait_.as_ref().map(|(_, p, _)| p.to_token_stream().to_string()).unwrap_or_default();
+                (format!("impl {} for {}", tr, i.self_ty.to_token_stream()), i.to_token_stream().to_string())
+            }
             _ => continue,
         };
         m.insert(name, text);
@@ -324,6 +337,44 @@ impl Property for C16 {
                             format!("item {d} differs between the split and the single-call history")
                         };
                         unit.violations.push(Violation::new("split-changes-definitions", detail));
+                    }
+                }
+            }
+        }
+        // order invariance: add_type calls that refer to no definition and carry a fresh name are
+        // independent of the definition batches; made first instead of last, the same set of
+        // definitions (items and trait implementations) must result
+        let def_names: BTreeSet<String> = c["all_defs"].as_object().map(|o| o.keys().cloned().collect()).unwrap_or_default();
+        let independent = |h: &Value| -> bool {
+            h["op"] == "type"
+                && h.get("repeat_of").is_none()
+                && !h["schema"].to_string().contains("\"$ref\"")
+                && h["hint"].as_str().map(|n| n.starts_with("Hint") && !def_names.contains(n)).unwrap_or(false)
+        };
+        let all_type_hints_fresh = hist.iter().filter(|h| h["op"] == "type").all(|h| h["hint"].as_str().map(|n| !def_names.contains(n)).unwrap_or(true));
+        if unit.violations.is_empty() && all_type_hints_fresh && !hist.iter().any(|h| h.get("readd").is_some()) && hist.iter().any(|h| independent(h)) && n_refs >= 1 {
+            let mut alt = TypeSpace::new(&ts);
+            let mut ok = true;
+            let order: Vec<usize> = (0..steps.len()).filter(|i| independent(&hist[*i])).chain((0..steps.len()).filter(|i| !independent(&hist[*i]))).collect();
+            for i in order {
+                if ingest::apply_step(&mut alt, &steps[i]).is_err() {
+                    ok = false;
+                    break;
+                }
+            }
+            if ok {
+                *unit.counters.entry("order_invariance_checked".into()).or_default() += 1;
+                if let (Ok(a), Ok(b)) = (item_map(&space), item_map(&alt)) {
+                    if a != b {
+                        let ka: BTreeSet<&String> = a.keys().collect();
+                        let kb: BTreeSet<&String> = b.keys().collect();
+                        let detail = if ka != kb {
+                            format!("definitions differ: only with the independent add_type calls last {:?}, only with them first {:?}", ka.difference(&kb).collect::<Vec<_>>(), kb.difference(&ka).collect::<Vec<_>>())
+                        } else {
+                            let d = a.iter().find(|(k, v)| b.get(*k) != Some(*v)).map(|(k, _)| k.clone()).unwrap_or_default();
+                            format!("item {d} differs when the independent add_type calls are made first")
+                        };
+                        unit.violations.push(Violation::new("order-changes-definitions", detail));
                     }
                 }
             }
